@@ -203,6 +203,39 @@ def qm_files(ctx, r, S, spec):
     add_sweep(ctx, S, spec, 'qm', m, data, '', f'decqm all {F.hx(text)} {H} {vt} {n} {F.hx(data)}', tag='qm')
 
 
+EOCD = []      # (driver line, zipfile's answers, site, input class, source) of the end-record sweeps
+
+
+def eocd_prefixes(ctx, data, site, tag, spec):
+    """zipfile._EndRecData on EVERY prefix of `data` (what decides whether ZipFile opens a truncated file) vs `endRecData`;
+    also the side condition of `zip_prefix_rejected`: the signature occurs only in the last 22 bytes"""
+    hits = []
+    for j in range(len(data) + 1):
+        rec = zipfile._EndRecData(io.BytesIO(data[:j]))
+        if rec is not None:
+            hits.append(f'{j}:{rec[zipfile._ECD_LOCATION]}')
+    sig_ok = data.find(C9.SIG) >= len(data) - 22
+    ctx.tick(f'eocd sweep {tag}: ' + ('signature only in the end record' if sig_ok else 'signature also inside the payload'))
+    if sig_ok and [h for h in hits if not h.startswith(f'{len(data)}:')]:
+        ctx.fail('property', site, f'{tag}: end record found in a proper prefix',
+                 f'zipfile._EndRecData finds an end record in proper prefixes {hits[:5]} of a {len(data)}-byte file whose only signature is the final one',
+                 repro=F.PRELUDE + F.emit(spec) + "raise AssertionError('end record found in a proper prefix')\n")
+    EOCD.append((f'eocdall {F.hx(data)}', ','.join(hits) or '-', site, tag, F.emit(spec)))
+
+
+def eocd_evaluate(ctx):
+    if not EOCD:
+        return
+    got = run_driver('filedriver', [e[0] for e in EOCD], timeout=3000)
+    ctx.corr_lines += len(EOCD)
+    for (line, want, site, tag, src), g in zip(EOCD, got):
+        ctx.case(('eocd', line), nontrivial=True)
+        if g != want:
+            ctx.fail('correspondence', 'zipfile._EndRecData vs endRecData', f'{tag}: every prefix',
+                     f'{site}: prefixes at which an end record is found: implementation `{want[:120]}`, model `{g[:120]}`', detail=dict(source=src))
+    del EOCD[:]
+
+
 def cqm_files(ctx, r, S, spec):
     m = F.build(spec)
     compress = r.random() < .4
@@ -211,6 +244,8 @@ def cqm_files(ctx, r, S, spec):
     pre, fver, text, hend = F.split_header(data)
     # model: the header reader, then "the archive does not open" for every proper prefix (contract)
     add_sweep(ctx, S, spec, 'cqm', m, data, kw, f'deccqmhdr {F.hx(text)} {F.hx(data)}', exact_to=hend, tag='cqm' + (' compressed' if compress else ''))
+    if len(data) <= 6000:
+        eocd_prefixes(ctx, data, 'ConstrainedQuadraticModel.from_file', 'cqm whole file', spec)
 
 
 def dqm_files(ctx, r, S, spec):
@@ -227,6 +262,8 @@ def dqm_files(ctx, r, S, spec):
     lab = '1' if hv['variables'] else '0'
     add_sweep(ctx, S, spec, 'dqm', m, data, kw, f'decdqm all {F.hx(text)} {lab} {vt} {n} {ln} {n} {F.hx(data)}', relabelled=ign,
               exact_to=hend + 8, tag='dqm' + (' compressed' if compress else ''))
+    if len(data) <= 6000:
+        eocd_prefixes(ctx, data[hend + 8:hend + 8 + ln], 'DiscreteQuadraticModel.from_file', 'dqm npz blob', spec)
 
 
 # ------------------------------------------------------------------ expression files and the raw loaders
@@ -583,6 +620,7 @@ def run(ctx):
         evaluate(ctx, S, guarded_budget)
         if len([f for f in ctx.failures if f['kind'] != 'correspondence']) >= 12:
             break
+    eocd_evaluate(ctx)
     expr_sweeps(ctx, r, ctx.scale(20, 300), guarded_budget)
     raw_loader_cases(ctx, r, ctx.scale(120, 1500))
     if not ctx.quick:
